@@ -150,6 +150,16 @@ CHECKS = {
         "DESIGN.md 6 C09",
         TRUST,
     ),
+    "C17": (
+        "TLC exhaustive check of IO.tla (all registry scenarios: dimension, Eulerian scalar/vector, up to two Lagrangian grids with "
+        "marker counts incl. N = dim and with/without fields, one mismatch; round trip, rejection, marker-major layout; two wrong "
+        "design variants refuted) + every scenario replayed through the real IO classes (h5 files inspected: paths, shapes, raw "
+        "bytes; loaded arrays compared by raw bytes incl. NaN payloads/denormals; exceptions vs the model's error state) + "
+        "CosseratRodIO / EulerianFieldIO round trips",
+        "Model checking of the registry/file/load design over all configurations + conformance of the real classes per scenario.",
+        "DESIGN.md 6 C17",
+        TRUST,
+    ),
 }
 
 NOT_YET = "check not built yet in this round (see DESIGN.md 11 for the build order)"
